@@ -513,6 +513,9 @@ def jobs(tier):
     from harness import color_strings
 
     js += color_strings.jobs(tier)  # every colour written into a document goes through Color.to_string
+    from harness import C07_rawsvg
+
+    js += C07_rawsvg.jobs(tier)  # untouched SVG: one record per glyph, in glyph id order
     return js
 
 
